@@ -438,13 +438,16 @@ impl World {
             for a in &c.addrs {
                 node.add_addr(IpCidr::new(ipa(a), 64));
             }
+            // the statement speaks of arrival orders, not of how long fragments are kept: the model
+            // uses whatever timeout this interface reports (60 s by default)
+            let reasm_timeout_ms = node.iface.reassembly_timeout().total_millis() as i64;
             s.push(Side {
                 node,
                 addrs: c.addrs.clone(),
                 an: TxAnalyzer::new(c.ll, cfg.n[1 - i].ll, cfg.pan),
                 outbox: vec![],
                 rx_infos: VecDeque::new(),
-                reasm: RefReasm::new(limits.0, limits.1, 60_000),
+                reasm: RefReasm::new(limits.0, limits.1, reasm_timeout_ms),
                 completed: vec![],
                 polls: 0,
             });
